@@ -24,54 +24,22 @@ def shiftOp (d : Nat) : Op → Op
   | .dropq k => .dropq (k + d)
   | op => op
 
-/-- loop operations: model operations, plus two that only touch the heap of the model (driver level):
-`(attach r o)` = `root.knows.append(o)` — a plain list field, a strong reference the registry knows nothing about;
-`(detach r)` = `root.knows.clear()` -/
-inductive XOp where
-  | m (op : Op)
-  | attach (r o : Nat)
-  | detach (r : Nat)
-
 def shiftX (d : Nat) : XOp → XOp
   | .m op => .m (shiftOp d op)
   | .attach r o => .attach (sh d r) (sh d o)
   | .detach r => .detach (sh d r)
+  | .newrole o e => .newrole (sh d o) (sh d e)
+  | .roleset f o g => .roleset f (sh d o) (sh d g)
+  | .newholder o r => .newholder (sh d o) (sh d r)
+  | .clone o s deep => .clone (sh d o) (sh d s) deep
 
-def stepX (q : Quirks) (st : DSt) : XOp → DSt
-  | .m op => stepD q st op
-  | .attach r o =>
-    if st.err || !(st.h.isLive r && st.h.isLive o) then st
-    else { st with h := { st.h with fields := st.h.fields ++ [⟨r, 4, o⟩] } }
-  | .detach r =>
-    if st.err then st
-    else { st with h := { st.h with fields := st.h.fields.filter (fun e => !(e.owner == r && e.fld == 4)) } }
-
-def runX (q : Quirks) (st : DSt) (ops : List XOp) : DSt := ops.foldl (stepX q) st
-
-def parseX (xs : List Sexp) : Option (List XOp) :=
-  let rec go (pos : Nat) : List Sexp → Option (List XOp)
-    | [] => some []
-    | x :: r => do
-      let a ← match x with
-        | .list [.atom "attach", r, o] => do pure [XOp.attach (← r.asNat?) (← o.asNat?)]
-        | .list [.atom "detach", r] => do pure [XOp.detach (← r.asNat?)]
-        -- a query over the long-lived type that reaches the transient instances through `flatten(root.knows)`:
-        -- only the variable over the roots has a domain (and a cached domain)
-        | .list [.atom "queryf", c] => do
-            let c ← c.asNat?
-            pure ([Op.mkq (100000 + pos) c none, .evalq (100000 + pos), .dropq (100000 + pos)].map XOp.m)
-        | .list (.atom "queryfd" :: c :: dom) => do
-            let c ← c.asNat?
-            pure ([Op.mkq (100000 + pos) c (some (← dom.mapM Sexp.asNat?)), .evalq (100000 + pos),
-              .dropq (100000 + pos)].map XOp.m)
-        | _ => do pure ((← parseOp pos x).map XOp.m)
-      let b ← go (pos + 1) r
-      pure (a ++ b)
-  go 0 xs
+def runX (q : Quirks) (st : DSt) (ops : List XOp) : DSt := runXS schema q st ops
 
 def cleanup (body : List XOp) : List XOp :=
   let dq : List Op := body.filterMap (fun op => match op with | XOp.m (Op.mkq k _ _) => some (Op.dropq k) | _ => none)
-  let dr : List Op := body.filterMap (fun op => match op with | XOp.m (Op.new o _ _) => some (Op.drop o) | _ => none)
+  let dr : List Op := body.filterMap (fun op => match op with
+    | XOp.m (Op.new o _ _) => some (Op.drop o) | XOp.newrole o _ => some (Op.drop o)
+    | XOp.newholder o _ => some (Op.drop o) | XOp.clone o _ _ => some (Op.drop o) | _ => none)
   (dq ++ dr ++ [Op.sweep]).map XOp.m
 
 structure Sizes where
@@ -105,7 +73,9 @@ def runLoop (q : Quirks) (n : Nat) (pre body : List XOp) : DSt × List Sizes × 
       let st2 := runX q st1 (cleanup b)
       let died := before.any (fun o => !st2.h.isLive o)
       let diedBody := (st.h.live.map (·.obj) ++
-          (b.filterMap fun op => match op with | .m (.new o _ _) => some o | _ => none)).any
+          (b.filterMap fun op => match op with
+            | .m (.new o _ _) => some o | .newrole o _ => some o | .newholder o _ => some o | .clone o _ _ => some o
+            | _ => none)).any
         (fun o => !st2.h.isLive o)
       go (i + 1) fuel st2 (acc ++ [sizes st2]) died (diedEver || diedBody)
   go 0 n (runX q (St.init lifo) pre) [] false false
